@@ -59,7 +59,17 @@ fn patterns(bytes: usize) -> Vec<u128> {
 
 pub fn run(ctx: &Ctx) {
     let evals = AtomicU64::new(0);
+    // every value is processed under the panic trap (a panic of the adapter is a finding, and the
+    // non-termination watchdog sees the thread as inside the library)
     macro_rules! one_value {
+        ($le:ident, $be:ident, $both:ident, $t:ty, $x:expr, $order:expr) => {{
+            let xv: $t = $x;
+            if let Err(p) = crate::rt::trap(|| one_value_inner!($le, $be, $both, $t, xv, $order)) {
+                ctx.violation(concat!("fixint-panic-", stringify!($t)), format!("panic: {p}"), $order, json!({"type": stringify!($t), "value": xv.to_string()}));
+            }
+        }};
+    }
+    macro_rules! one_value_inner {
         ($le:ident, $be:ident, $both:ident, $t:ty, $x:expr, $order:expr) => {{
             let x: $t = $x;
             let n = std::mem::size_of::<$t>();
